@@ -60,6 +60,50 @@ def extend(ctx, mod):
         {'variant': r['id'], 'finding': (r['props'][prop]['findings'] or ['?'])[0][:200]}
         for r in mut[ctx.seed % 3::max(1, len(mut) // 6)][:6]]
     ctx.extra['sweep_parallel_list_updates'] = _sweep_parallel_lists(ctx)
+    # independently seeded changes (seeded/<tag>/patch.diff) written against this property
+    seeded = _seeded_audit(ctx)
+    ctx.extra['audit_seeded_changes'] = seeded
     ctx.note('thorough tier: lockstep path enumeration with every loop taken up to twice; '
              'sensitivity audit of %d breaking and %d benign variants for this property '
              '(informational, does not affect the verdict)' % (len(mut), len(ben)))
+
+
+def _seeded_audit(ctx):
+    """Apply each kept seeded change that targets this property to a scratch copy of the
+    package (never to /repo) and record whether this check reports it."""
+    import glob
+    import json
+    import shutil
+    import subprocess
+    import sys
+    import tempfile
+    from .core import VERIF
+    out = []
+    here = os.path.dirname(os.path.abspath(__file__))
+    for mp in sorted(glob.glob(os.path.join(VERIF, 'seeded', '*', 'meta.json'))):
+        try:
+            meta = json.load(open(mp))
+        except Exception:
+            continue
+        if meta.get('breaks_property') != ctx.prop:
+            continue
+        d = tempfile.mkdtemp(prefix='nvstat_seed_')
+        try:
+            shutil.copytree(os.path.join(ctx.program.repo, 'nautilus'),
+                            os.path.join(d, 'nautilus'),
+                            ignore=shutil.ignore_patterns('__pycache__'))
+            r = subprocess.run(['patch', '-p1', '-s', '-d', d, '-i',
+                                os.path.join(os.path.dirname(mp), 'patch.diff')],
+                               capture_output=True, text=True)
+            if r.returncode:
+                out.append({'change': meta['tag'], 'applies': False})
+                continue
+            env = dict(os.environ, NVSTAT_OUT=os.path.join(d, 'out'))
+            r = subprocess.run([sys.executable, os.path.join(here, 'check.py'), '-p', ctx.prop,
+                                '--repo', d], capture_output=True, text=True, env=env)
+            f = [l for l in r.stdout.splitlines() if l.startswith('FINDING')]
+            out.append({'change': meta['tag'], 'applies': True, 'exit': r.returncode,
+                        'first_finding': f[0][:200] if f else None})
+        finally:
+            shutil.rmtree(d, ignore_errors=True)
+    return out
